@@ -103,7 +103,8 @@ func (l *queryLog) search(
 ) (entries []*logEntry, oldest time.Time) {
 	start := time.Now()
 
-	if params.limit == 0 {
+	if !params.valid() {
+		// Nothing can be returned for an empty or a malformed page.
 		return []*logEntry{}, time.Time{}
 	}
 
@@ -117,7 +118,7 @@ func (l *queryLog) search(
 
 	total += bufLen
 
-	totalLimit := params.offset + params.limit
+	totalLimit := params.totalLimit()
 
 	// now let's get a unified collection
 	entries = append(memoryEntries, fileEntries...)
@@ -269,7 +270,7 @@ func (l *queryLog) searchFiles(
 		}
 	}()
 
-	totalLimit := params.offset + params.limit
+	totalLimit := params.totalLimit()
 	entries, oldestNano, total := l.readEntries(ctx, r, params, cache, totalLimit)
 	if oldestNano != 0 {
 		oldest = time.Unix(0, oldestNano)
